@@ -602,7 +602,7 @@ func (vc *VC) execInstr(fr *Frame, b *ssa.BasicBlock, ins ssa.Instruction) {
 	case *ssa.MakeChan:
 		ref := vc.newRef("chan")
 		fr.vals[x] = scalar(ref)
-		vc.chanInit(ref, x)
+		vc.chanInitImpl(ref, x, fr)
 	case *ssa.MakeClosure:
 		var bind []SV
 		for _, bv := range x.Bindings {
